@@ -120,6 +120,8 @@ type Stats struct {
 	Panics           int64
 	BystanderOps     int64
 	ObserverReuse    int64
+	RejectedStatsCmp int64 // per-archetype Stats() comparisons around calls rejected for their arguments
+	FilterSpareBatch int64 // standing filters that served a Batch(rel) call before their first query
 	RelListsShared   int64 // relation argument lists (built with Rel/RelIdx) handed to a world after another world had used them
 	LateRoundTrips   int64 // add/query/remove round trips with a component type registered in mid-history
 	StatsInCallback  int64 // Stats() rules applied from inside batch and observer callbacks
